@@ -36,9 +36,17 @@ func c14Scenario(id string, callers int, reqs []int, shape int, startWithVal boo
 		const startVal = int64(-424242)
 		var firstX int64
 		wg.Add(1)
+		// with 6 or more callers, every other scenario holds the target back until all callers have handed over (or block
+		// in the hand-over: the request channel has room for 5)
+		hold := make(chan struct{})
+		holding := callers >= 6 && !startWithVal && seed%2 == 0
+		if !holding {
+			close(hold)
+		}
 		target = fpgo.CorNewGenerics[int64](func() {
 			defer wg.Done()
 			flagsInside = [2]bool{target.IsStarted(), target.IsDone()}
+			<-hold
 			var prevX, acc int64
 			if startWithVal {
 				firstX = target.YieldRef(-1) // consumes the StartWithVal value; its y has no recipient by design
@@ -89,6 +97,11 @@ func c14Scenario(id string, callers int, reqs []int, shape int, startWithVal boo
 			target.Start()
 			for _, co := range cors {
 				co.Start()
+			}
+			if holding {
+				time.Sleep(time.Duration(300+seed%5*200) * time.Microsecond)
+				c.Count("scenarios_with_full_request_channel", 1)
+				close(hold)
 			}
 		}
 		joined := make(chan struct{})
@@ -271,6 +284,13 @@ func c14Scenarios(c *core.Ctx, race bool) []core.Scenario {
 		}
 		out = append(out, c14Scenario(fmt.Sprintf("pair-%d-c%d-race%v", i, callers, race), callers, reqs, i%3, i%5 == 4, c.Seed*23+int64(i)))
 	}
+	for i, callers := range []int{6, 7, 8, 8, 12, 16} {
+		reqs := make([]int, callers)
+		for j := range reqs {
+			reqs[j] = 1 + (i+j)%4
+		}
+		out = append(out, c14Scenario(fmt.Sprintf("full-channel-%d-c%d-race%v", i, callers, race), callers, reqs, i%3, false, c.Seed*2+int64(2*i)))
+	}
 	// single caller, long (well beyond the channel buffer of 5)
 	for _, k := range []int{1, 5, 6, 7, 50} {
 		out = append(out, c14Scenario(fmt.Sprintf("single-%d-race%v", k, race), 1, []int{k}, 0, false, c.Seed+int64(k)))
@@ -286,7 +306,7 @@ func init() {
 		Meta: func(c *core.Ctx) core.Meta {
 			return core.Meta{
 				Level:       "exploration",
-				Rule:        "topologies of 1..8 caller coroutines with 1..12 requests each (more than the channel buffer of 5) against one target that serves exactly the total, three generator shapes (fixed sequence, echo of the previous x, running accumulate), with and without StartWithVal, PRNG yields at cor.YieldRef.taken / cor.YieldFrom.sent / cor.doCloseSafe.checked; x = (caller, i) unique and y_k unique; goroutine-local logs joined by a WaitGroup the effects signal; oracle: every x exactly once at the target, the caller of the request taken as step k received exactly y_k, per-caller positions increase, counts match; StartWithVal value reaches the first YieldRef, DoNotation / YieldFromIO values and single IO effect, YieldFromIO of an IO whose own effect calls YieldFrom through the evaluating coroutine (inline and on a Handler), IsStarted/IsDone inside and after the effect; stuck detector; repeated under -race (deciding for cor.go). distinct_nontrivial = distinct topologies + hook-trace signatures",
+				Rule:        "topologies of 1..8 caller coroutines with 1..12 requests each (more than the channel buffer of 5) against one target that serves exactly the total, three generator shapes (fixed sequence, echo of the previous x, running accumulate), with and without StartWithVal, with the target held back until 6..16 callers have filled its request channel of 5 (the others block in the hand-over), PRNG yields at cor.YieldRef.taken / cor.YieldFrom.sent / cor.doCloseSafe.checked; x = (caller, i) unique and y_k unique; goroutine-local logs joined by a WaitGroup the effects signal; oracle: every x exactly once at the target, the caller of the request taken as step k received exactly y_k, per-caller positions increase, counts match; StartWithVal value reaches the first YieldRef, DoNotation / YieldFromIO values and single IO effect, YieldFromIO of an IO whose own effect calls YieldFrom through the evaluating coroutine (inline and on a Handler), IsStarted/IsDone inside and after the effect; stuck detector; repeated under -race (deciding for cor.go). distinct_nontrivial = distinct topologies + hook-trace signatures",
 				Assumptions: []string{"only while the target has YieldRefs left to serve (statement); YieldFrom on a finished target is property C15", "the y of the YieldRef that consumes the StartWithVal value has no recipient by design"},
 			}
 		},
